@@ -93,7 +93,7 @@ def lean_stage(prop_id, tier, mod):
     out["axioms_used"] = a.get("axioms_used", [])
     if a["failed"]:
         out["log"] += a["log"]
-    out["forbidden"] = leanproj.grep_forbidden()
+    out["forbidden"] = leanproj.grep_forbidden(targets)
     if out["forbidden"]:
         out["failed"]["<forbidden-tokens>"] = "; ".join(out["forbidden"][:5])
     if tier == "thorough":
